@@ -2,3 +2,5 @@ import PelGen.Live
 import PelGen.GenPeltool
 import PelGen.GenSections
 import PelGen.GenIoDrawer
+import PelGen.GenUserData
+import PelGen.GenDispatch
